@@ -2,7 +2,7 @@
 import os
 
 from . import core
-from .rules import stdio, cert, mark, exact, optstore, inval, idx, atomic, own, tokens, idxclass, copy, pair, structfree, buf, div, counter, sentinel, appendinit, verdict, basismap, zerotol, escape, lenclass, djsym, ndet, useb4check, norms, opencheck, shell, esolver, errlost, rescan, certdep, neverset, fmt, defaults, scratch, fullscan, slotleak, floatidx, sensemap, trunc, vtypezero, allockind, intdiv, strscan, localfield, rawidx, argcap, staleptr, condalloc, lpstate, vstattype, alphabet, outleak, fieldleak, lenm1, basisdim, dupmark, rowcopy, normlen, logonly, decacc, nzcount, infmap, lognofail, outunset, dupentry, digitseen, signedidx, strcap, nulterm, finite, nullret, pcheck, probstat, dzfresh, kwtable, headguard
+from .rules import stdio, cert, mark, exact, optstore, inval, idx, atomic, own, tokens, idxclass, copy, pair, structfree, buf, div, counter, sentinel, appendinit, verdict, basismap, zerotol, escape, lenclass, djsym, ndet, useb4check, norms, opencheck, shell, esolver, errlost, rescan, certdep, neverset, fmt, defaults, scratch, fullscan, slotleak, floatidx, sensemap, trunc, vtypezero, allockind, intdiv, strscan, localfield, rawidx, argcap, staleptr, condalloc, lpstate, vstattype, alphabet, outleak, fieldleak, lenm1, basisdim, dupmark, rowcopy, normlen, logonly, decacc, nzcount, infmap, lognofail, outunset, dupentry, digitseen, signedidx, strcap, nulterm, finite, nullret, pcheck, probstat, dzfresh, kwtable, headguard, hitused
 from .effects import Effects
 
 FIX = os.path.join(os.path.dirname(os.path.abspath(__file__)), "fixtures")
@@ -393,7 +393,7 @@ PROPS = {
                   lambda prog, tier: tokens.run_lp(prog),
                   lambda prog, tier: tokens.run_sections(prog, "mpq_ILLwrite_lp", {"End"}, print_funcs={"mpq_ILLprint_report": 1}, token_ok=lambda t: t[0].isupper()),
                   lambda prog, tier: idxclass.run(prog, scope_units=("lp_mpq.c", "write_lp_mpq.c", "rawlp_mpq.c")),
-                  lambda prog, tier: sentinel.run(prog), lambda prog, tier: rescan.run(prog), lambda prog, tier: decacc.run(prog), lambda prog, tier: kwtable.run(prog), lambda prog, tier: defaults.run(prog),
+                  lambda prog, tier: sentinel.run(prog), lambda prog, tier: rescan.run(prog), lambda prog, tier: decacc.run(prog), lambda prog, tier: kwtable.run(prog), lambda prog, tier: hitused.run(prog), lambda prog, tier: defaults.run(prog),
                   lambda prog, tier: fullscan.run(prog, ["mpq_ILLwrite_lp"], ("lp_mpq.c", "write_lp_mpq.c"), floor=4),
                   lambda prog, tier: trunc.run(prog)],
         "technique": "lossy-conversion sink census over the writer and reader call-graph closures; writer/reader agreement of type-resolved "
@@ -717,7 +717,7 @@ _ADD = {
             "explanation": " (R-RESCAN) the '/' case of the exact literal scanner restores every scanner state variable; (R-EXPLICITBND) the raw LP's "
                            "bounds are stored only where the 'explicitly given' flag is zero, finite defaults only where both flags are zero; (R-EXACT, "
                            "machine word) no literal is assembled in an unsigned long without a visible digit bound <= 19; (R-FULLSCAN) the emission "
-                           "loops of the LP writer are left only on counter tests or failure exits. (R-KWTABLE) the reader's keyword table and its parallel length table agree entry by entry."},
+                           "loops of the LP writer are left only on counter tests or failure exits. (R-KWTABLE) the reader's keyword table and its parallel length table agree entry by entry. (R-HITUSED) behind every registration of a name the reported slot or existed-flag is read (a generated name that clashes with a user's name is noticed)."},
     "C09": {"technique": "; all-paths constant propagation through the '/' case of the exact literal scanner; flag-state dataflow for stores into the "
                          "raw LP's bounds; machine-word sink census; exit-condition analysis of the emission loops; dominance of row-naming records "
                          "by the row-length test",
